@@ -221,7 +221,7 @@ func vpNetDial(network, address string) (net.Conn, error) {
 	return c, nil
 }
 
-//vp:use asn1der gocache
+//vp:use asn1der gocache promstub
 
 // vpRealDER: decode with the library's rules (shared harness part asn1der; natively the real library)
 // instead of the contract below.
@@ -511,8 +511,8 @@ func vpDERWrap(tag byte, content []byte) []byte {
 	return append(append([]byte{tag}, vpDERLen(len(content))...), content...)
 }
 
-//vp:property C20
-//vp:bounds the request body is a KDC-PROXY-MESSAGE as MS-KKDCP defines it (EXPLICIT tags): SEQUENCE { [0] OCTET STRING kerb-message (4-byte prefix + 1 symbolic byte), [1] GeneralString target-domain absent / "BRANCH.TEST" / "DEFAULT.REALM" / "NOWHERE.TEST", [2] INTEGER dclocator-hint absent / one symbolic byte / 0x80000000 (five octets) }, sent as it is or damaged in one of: a trailing byte after the SEQUENCE, the last byte cut off, the outer tag not a SEQUENCE (0x31), an indefinite outer length (0x80), an outer length one too large; one TCP KDC per configured realm, always replying
+//vp:property C20 C10
+//vp:bounds the request body is a KDC-PROXY-MESSAGE as MS-KKDCP defines it (EXPLICIT tags): SEQUENCE { [0] OCTET STRING kerb-message (4-byte prefix + 1 symbolic byte), [1] GeneralString target-domain absent / "BRANCH.TEST" / "DEFAULT.REALM" / "NOWHERE.TEST" / a name with a byte that is not UTF-8, [2] INTEGER dclocator-hint absent / one symbolic byte / 0x80000000 (five octets) }, sent as it is or damaged in one of: a trailing byte after the SEQUENCE, the last byte cut off, the outer tag not a SEQUENCE (0x31), an indefinite outer length (0x80), an outer length one too large; one TCP KDC per configured realm, always replying
 //vp:assume gofork's asn1.Unmarshal as modelled by the shared harness part asn1der from its source (the real library runs natively and every path is compared); gokrb5's realm -> KDC resolution as in VP_C20_realm
 //vp:reach served refused
 func VP_C20_der() {
@@ -522,7 +522,7 @@ func VP_C20_der() {
 	vpUnknown = false
 	vpUDPn, vpTCPn = 0, 1
 	krb := []byte{0, 0, 0, 1, vpU8("krb")}
-	realm := []string{"", "BRANCH.TEST", "DEFAULT.REALM", "NOWHERE.TEST"}[vpIntRange("target-domain", 0, 3)]
+	realm := []string{"", "BRANCH.TEST", "DEFAULT.REALM", "NOWHERE.TEST", "N\xe9ANT.TEST"}[vpIntRange("target-domain", 0, 4)] // the last one with a Latin-1 byte: a GeneralString is 8-bit
 	body := vpDERWrap(0xA0, vpDERWrap(0x04, krb))
 	if realm != "" {
 		body = append(body, vpDERWrap(0xA1, vpDERWrap(0x1B, []byte(realm)))...)
@@ -560,7 +560,7 @@ func VP_C20_der() {
 		vpAssert(w.status == 400 && len(vpDialLog) == 0, "a-body-that-is-not-valid-der-or-has-trailing-bytes-is-400-and-contacts-no-kdc")
 		return
 	}
-	if realm == "NOWHERE.TEST" {
+	if realm == "NOWHERE.TEST" || realm == "N\xe9ANT.TEST" {
 		vpAssert(w.status == 503 && len(vpDialLog) == 0, "unknown-realm-contacts-no-kdc")
 		return
 	}
